@@ -18,7 +18,8 @@
 (* Every action takes the written entry e as a parameter: the model-checking*)
 (* spec (MCNext) passes the entry built by AuditLogCore, the trace spec    *)
 (* (AuditLogTrace) passes the entry decoded from the real log file.  The   *)
-(* actions do not touch the history variables (log, returned); MCNext does.   *)
+(* actions do not touch the history variables (log, returned, vs, rs, ..);  *)
+(* MCNext does.                                                            *)
 (***************************************************************************)
 EXTENDS AuditLogCore
 
@@ -35,10 +36,12 @@ VARIABLES mode,        \* "closed" | "genesis" | "ready" | "grounding"
           log,         \* MC history: the written log
           returned,    \* MC history: [id, err] of the calls that returned
           ninv,        \* MC: calls started per thread
+          vs,          \* MC history: an online Validator (with verifiers) fed every written entry
+          rs,          \* MC history: an online Validator without verifiers (what NewFileSink runs)
           restarts
 
 mwvars == <<mode, w, pc, cur, done, unrecorded>>
-vars   == <<mode, w, pc, cur, done, unrecorded, log, returned, ninv, restarts>>
+vars   == <<mode, w, pc, cur, done, unrecorded, log, returned, ninv, vs, rs, restarts>>
 
 NoCall == [id |-> "", m |-> "", bucket |-> "", key |-> "", uploadId |-> "", partNumber |-> 0,
            sourceBucket |-> "", sourceKey |-> "", credentialId |-> "", authType |-> "",
@@ -136,48 +139,59 @@ MCInit ==
   /\ pc = [t \in Threads |-> "idle"] /\ cur = [t \in Threads |-> NoCall]
   /\ done = 0 /\ unrecorded = {} /\ log = <<>> /\ returned = {} /\ restarts = 0
   /\ ninv = [t \in Threads |-> 0]
+  /\ vs = Good(VInit) /\ rs = Good(VInit)
+
+\* the entry reaches the file: both online validators consume it
+Written(e) ==
+  /\ log' = Append(log, e)
+  /\ vs' = IF vs.ok THEN ValidateEntry(vs.v, e, TRUE) ELSE vs
+  /\ rs' = IF rs.ok THEN ValidateEntry(rs.v, e, FALSE) ELSE rs
+NothingWritten == UNCHANGED <<log, vs, rs>>
+
+\* NewFileSink: what the verifier-less validator recovered = [LastHash, HashBuffer]
+Recovered == [last |-> IF log = <<>> THEN ZeroHash ELSE log[Len(log)].hash, buf |-> rs.v.buf]
 
 MCOpen ==
   /\ mode = "closed"
-  /\ Recover(log).ok
-  /\ Open([empty |-> log = <<>>, w |-> Recover(log).w])
-  /\ UNCHANGED <<log, returned, restarts, ninv>>
+  /\ rs.ok
+  /\ Open([empty |-> log = <<>>, w |-> Recovered])
+  /\ NothingWritten /\ UNCHANGED <<returned, restarts, ninv>>
 
 MCGenesis ==
   LET e == MkGenesis(Len(log)) IN
-  WriteGenesis(e) /\ log' = Append(log, e) /\ UNCHANGED <<returned, restarts, ninv>>
+  WriteGenesis(e) /\ Written(e) /\ UNCHANGED <<returned, restarts, ninv>>
 
 MCInvoke(t) ==
   /\ ninv[t] < CallsPerThread
   /\ Invoke(t, MCCall(t, ninv[t] + 1))
   /\ ninv' = [ninv EXCEPT ![t] = @ + 1]
-  /\ UNCHANGED <<log, returned, restarts>>
+  /\ NothingWritten /\ UNCHANGED <<returned, restarts>>
 
 MCLogStart(t) ==
   LET e == MkLog(w, Len(log), ExpectedDetails(cur[t], "START", 0)) IN
-  LogStart(t, e) /\ log' = Append(log, e) /\ UNCHANGED <<returned, restarts, ninv>>
+  LogStart(t, e) /\ Written(e) /\ UNCHANGED <<returned, restarts, ninv>>
 
 MCInner(t) ==
-  \E err \in {"", "boom"} : Inner(t, err, "") /\ UNCHANGED <<log, returned, restarts, ninv>>
+  \E err \in {"", "boom"} : Inner(t, err, "") /\ NothingWritten /\ UNCHANGED <<returned, restarts, ninv>>
 
 MCLogComplete(t) ==
   LET e == MkLog(w, Len(log), ExpectedDetails(cur[t], "COMPLETE", 1)) IN
-  LogComplete(t, e) /\ log' = Append(log, e) /\ UNCHANGED <<returned, restarts, ninv>>
+  LogComplete(t, e) /\ Written(e) /\ UNCHANGED <<returned, restarts, ninv>>
 
 MCGrounding ==
   LET e == MkGrounding(w, Len(log)) IN
-  WriteGrounding(e) /\ log' = Append(log, e) /\ UNCHANGED <<returned, restarts, ninv>>
+  WriteGrounding(e) /\ Written(e) /\ UNCHANGED <<returned, restarts, ninv>>
 
 MCReturn(t) ==
   /\ Return(t, cur[t].err)
   /\ returned' = returned \cup {[id |-> cur[t].id, err |-> cur[t].err]}
-  /\ UNCHANGED <<log, restarts, ninv>>
+  /\ NothingWritten /\ UNCHANGED <<restarts, ninv>>
 
 \* restart of the process at any buffer fill level, also with calls in flight
 MCClose ==
   /\ restarts < MaxRestarts
   /\ Close /\ restarts' = restarts + 1
-  /\ UNCHANGED <<log, returned, ninv>>
+  /\ NothingWritten /\ UNCHANGED <<returned, ninv>>
 
 MCNext ==
   \/ MCOpen \/ MCGenesis \/ MCGrounding \/ MCClose
@@ -187,10 +201,13 @@ MCSpec == MCInit /\ [][MCNext]_vars
 
 \* ------------------------------------------------------------------ properties
 \* the written log passes verification: chain, signatures, grounding after every BlockSize LOG entries
-LogVerifies == Validate(log).ok
+\* (vs is Validate(log) computed incrementally; FoldAgrees checks that on the small configuration)
+LogVerifies == vs.ok
+FoldAgrees  == /\ Validate(log).ok = vs.ok
+               /\ Recover(log).ok = rs.ok /\ (rs.ok => Recover(log).w = Recovered)
 
 \* whatever was written so far, a restart recovers exactly the writer's state
-RecoverConsistent == mode \in {"ready", "closed"} => (Recover(log).ok /\ (log # <<>> => Recover(log).w = w))
+RecoverConsistent == mode \in {"ready", "closed"} => (rs.ok /\ (log # <<>> => Recovered = w))
 
 LogEntriesOf(id, phase) ==
   {i \in 1..Len(log) : log[i].type = "LOG" /\ log[i].d.requestId = id /\ log[i].d.phase = phase}
